@@ -106,6 +106,16 @@ func c13NssaiDecode(c *core.Ctx, k *core.Case) {
 	b := k.B[0]
 	want, werr := refconv.ParseNssai(b)
 	e := nasType.NewRequestedNSSAI(0x2f)
+	if core.HashBytes(0x13, b)&1 == 1 && len(b) > 0 && len(b) < 200 {
+		// the element held a longer, well-formed list before (one more entry of length 1 or 4)
+		longer := append(cloneB(b), []byte{1, 0x55}...)
+		if core.HashBytes(0x13, b)&2 == 2 {
+			longer = append(cloneB(b), []byte{4, 0x66, 1, 2, 3}...)
+		}
+		e.SetLen(uint8(len(longer)))
+		e.SetSNSSAIValue(longer)
+		c.Count("elements_filled_twice", 1)
+	}
 	e.SetLen(uint8(len(b)))
 	e.SetSNSSAIValue(b)
 	c.Eval(1)
